@@ -243,7 +243,57 @@ func parseConsensusMessage(message *interfaces.ConsensusRawMessage) (parsed inte
 		return nil
 	}
 	_, _, _, _ = parsed.MessageType(), parsed.SenderMemberId(), parsed.BlockHeight(), parsed.View()
+	readNestedParts(parsed)
 	return parsed
+}
+
+// readNestedParts reads every nested part of a message that the handlers read later (block references, senders, the
+// prepared proof inside a VIEW_CHANGE, the votes and the proposal inside a NEW_VIEW). The readers are lazy: a size
+// word that points outside the buffer only panics when the part is first read. Reading it here, under the guard of
+// parseConsensusMessage, keeps such a message from being cached for a future height and read without a guard later.
+func readNestedParts(message interfaces.ConsensusMessage) {
+	readRef := func(r *protocol.BlockRef) {
+		_, _, _, _, _ = r.MessageType(), r.InstanceId(), r.BlockHeight(), r.View(), r.BlockHash()
+	}
+	readSender := func(s *protocol.SenderSignature) {
+		_, _ = s.MemberId(), s.Signature()
+	}
+	readVote := func(vc *protocol.ViewChangeMessageContent) {
+		header := vc.SignedHeader()
+		_, _, _, _ = header.MessageType(), header.InstanceId(), header.BlockHeight(), header.View()
+		if proof := header.PreparedProof(); proof != nil && len(proof.Raw()) > 0 {
+			readRef(proof.PreprepareBlockRef())
+			readSender(proof.PreprepareSender())
+			readRef(proof.PrepareBlockRef())
+			for it := proof.PrepareSendersIterator(); it.HasNext(); {
+				readSender(it.NextPrepareSenders())
+			}
+		}
+		readSender(vc.Sender())
+	}
+	switch m := message.(type) {
+	case *interfaces.PreprepareMessage:
+		readRef(m.Content().SignedHeader())
+		readSender(m.Content().Sender())
+	case *interfaces.PrepareMessage:
+		readRef(m.Content().SignedHeader())
+		readSender(m.Content().Sender())
+	case *interfaces.CommitMessage:
+		readRef(m.Content().SignedHeader())
+		readSender(m.Content().Sender())
+		_ = m.Content().Share()
+	case *interfaces.ViewChangeMessage:
+		readVote(m.Content())
+	case *interfaces.NewViewMessage:
+		header := m.Content().SignedHeader()
+		_, _, _, _ = header.MessageType(), header.InstanceId(), header.BlockHeight(), header.View()
+		for it := header.ViewChangeConfirmationsIterator(); it.HasNext(); {
+			readVote(it.NextViewChangeConfirmations())
+		}
+		readSender(m.Content().Sender())
+		readRef(m.Content().Message().SignedHeader())
+		readSender(m.Content().Message().Sender())
+	}
 }
 
 // Used by orbs-network-go
